@@ -85,14 +85,24 @@ def r3_merge_and_removal(rep, ctx):
     fn = m.method("UnitDatabase", "_DoOperationResultingInNewQuantity")
     cfg = CFG(fn.node)
     res = Resolver(m, fn, flow=False)
-    # exponent merges: operation_exp(exp1, exp2)
+    # exponent merges: operation_exp(<left exponent or 0>, <right exponent>)
     calls = [c for c in own_nodes(fn.node) if isinstance(c, ast.Call) and isinstance(c.func, ast.Name) and c.func.id == "operation_exp"]
     rep.floor("C04.R3", "exponent merges", len(calls), 2)
+    rres = Resolver(m, fn)
+    def from_map(t, which):
+        # an exponent taken out of map 1 / map 2 (position 1 of a [unit, exp] entry)
+        return all(any(s == ("param", which, fn.params[which]) for s in walk(a)) and a[0] == "sub" and a[2] == ("const", 1) for a in alternatives(t))
+    zero_seen = False
     for c in calls:
-        names = [a.id if isinstance(a, ast.Name) else None for a in c.args]
-        rep.check(names == ["exp1", "exp2"], "C04.R3", "merge:%s:%d" % (norm(ast.unparse(c)), calls.index(c)), "exponents are combined as operation_exp(left, right)", "exponents are combined as %s" % ast.unparse(c), node=c, fn=fn)
-    zero = [st for st in own_statements(fn.node) if isinstance(st, ast.Assign) and isinstance(st.targets[0], ast.Name) and st.targets[0].id == "exp1" and isinstance(st.value, ast.Constant)]
-    rep.check(len(zero) == 1 and zero[0].value.value == 0, "C04.R3", "merge:missing-category-has-exponent-0", "a category the left operand lacks enters with exponent 0", "a category missing on the left enters with exponent %s" % [ast.unparse(z.value) for z in zero], fn=fn)
+        a0, a1 = (rres.term(x) for x in c.args[:2]) if len(c.args) == 2 else (None, None)
+        left_ok = a0 is not None and (a0 == ("const", 0) or from_map(a0, 1) or all(x == ("const", 0) or (x[0] == "sub" and x[2] == ("const", 1)) for x in alternatives(a0)))
+        right_ok = a1 is not None and all(x[0] == "sub" and x[2] == ("const", 1) for x in alternatives(a1)) and a0 != a1
+        if a0 is not None and any(x == ("const", 0) for x in alternatives(a0)):
+            zero_seen = True
+        names = [ast.unparse(x) for x in c.args]
+        order_ok = names[0] in ("exp1", "0") and names[1] == "exp2" if all(n_ in ("exp1", "exp2", "0") for n_ in names) else (left_ok and right_ok)
+        rep.check(bool(order_ok), "C04.R3", "merge:%d" % calls.index(c), "exponents are combined as operation_exp(left, right)", "exponents are combined as %s" % ast.unparse(c), node=c, fn=fn)
+    rep.check(zero_seen, "C04.R3", "merge:missing-category-has-exponent-0", "a category the left operand lacks enters with exponent 0", "no merge combines exponent 0 for a category missing on the left", fn=fn)
     # the unit stored for a merged-in category is the right operand's unit
     # removal loop
     dels = [d for d in own_nodes(fn.node) if isinstance(d, ast.Delete)]
@@ -122,7 +132,7 @@ def r3_merge_and_removal(rep, ctx):
     rep.check(ast.unparse(create[0].args[0]) == ast.unparse(d.targets[0].value) if create[0].args else False, "C04.R3", "removal:same-map", "the cleaned map is the one the result is created from", "CreateDerived is given another map than the one that was cleaned", node=create[0], fn=fn)
     # per-unit totals accumulate the exponent
     acc = [st for st in own_statements(fn.node) if isinstance(st, ast.Assign) and isinstance(st.targets[0], ast.Subscript) and "only_units_expoents" in ast.unparse(st.targets[0])]
-    ok = len(acc) == 1 and ast.unparse(acc[0].value).replace(" ", "") in ("existing+exp", "exp+existing")
+    ok = len(acc) == 1 and ast.unparse(acc[0].value).replace(" ", "") in ("existing+exp", "exp+existing", "only_units_expoents.get(unit,0)+exp", "exp+only_units_expoents.get(unit,0)")
     rep.check(ok, "C04.R3", "removal:per-unit-total", "the per-unit total adds up the exponents of all categories using that unit", "the per-unit total is %s" % [ast.unparse(a.value) for a in acc], fn=fn)
     # value operation
     rets = [r for r in own_nodes(fn.node) if isinstance(r, ast.Return) and isinstance(r.value, ast.Tuple)]
